@@ -104,6 +104,10 @@ def path_seq(ctx, job, box):
 
 def jobs(tier):
     js = []
+    # the DECCOLM 132-column round trip (also with a stale remembered width left by an earlier switch)
+    from . import c12
+    for saved in ('none', 'sym'):
+        js.append(Job('deccolm-roundtrip/%s/2x2' % saved, c12.path_roundtrip, geom=(2, 2), saved=saved, prop=PROP))
     gs = [(1, 1), (2, 2), (3, 2), (1, 3), (1, 4)] if tier == 'quick' else [(1, 1), (2, 1), (1, 2), (2, 2), (3, 2), (2, 3), (3, 3)]
     for g in gs:
         js.append(Job('single/%dx%d' % g, path_single, geom=g, prop=PROP))
@@ -121,5 +125,5 @@ META = {
     'bounds': 'geometries {1x1,2x2,3x2,1x3,1x4} (thorough + {2x1,1x2,3x3}), every cell/row present or absent, margins, DECOM, '
               'pending-wrap cursor symbolic; target sizes 1..=size+2 in both dimensions (absent = keep); two-step '
               'sequences [resize | ICH | EL | RI | IND | DL | IL | draw | ECH | DCH] then resize on 2x2 (thorough + 3x2, 2x3)',
-    'outside': 'larger screens; sequences longer than two steps; the DECCOLM round trip is part of C12',
+    'outside': 'larger screens; sequences longer than two steps',
 }
